@@ -63,6 +63,60 @@ func c02Leak(out string, relaxAmp bool) string {
 	return ""
 }
 
+// KNOWN FINDING (C02 filtertag-struct-param, see KNOWN_FINDINGS.txt): inside a filter tag, a context value that is a
+// struct (nothing the engine can escape structurally) given as a filter parameter and then printed field by field
+// by stringformat reaches the output raw. The shape is recognised narrowly: a filter tag whose chain has a
+// non-literal parameter and a stringformat. A leak is attributed to the finding only if it disappears when the
+// stringformat calls of those tags are neutralised.
+var reFilterTag = regexp.MustCompile(`(?s)\{%-?\s*filter\s.*?%\}`)
+var reVarParam = regexp.MustCompile(`:\s*[A-Za-z_\[(]`)
+
+func c02KnownShape(src string) bool {
+	for _, tag := range reFilterTag.FindAllString(src, -1) {
+		if strings.Contains(tag, "stringformat") && reVarParam.MatchString(tag) {
+			return true
+		}
+	}
+	return false
+}
+
+func c02Neutralise(src string) string {
+	return reFilterTag.ReplaceAllStringFunc(src, func(tag string) string {
+		if strings.Contains(tag, "stringformat") && reVarParam.MatchString(tag) {
+			return strings.ReplaceAll(tag, "stringformat", "cut")
+		}
+		return tag
+	})
+}
+
+// c02Attributed reports whether a leak seen in the rendering of files[entry] is the known finding.
+func c02Attributed(files map[string]string, entry string, ctx pongo2.Context, relax bool) bool {
+	known := false
+	neutral := map[string]string{}
+	for k, v := range files {
+		if c02KnownShape(v) {
+			known = true
+		}
+		neutral[k] = c02Neutralise(v)
+	}
+	if !known {
+		return false
+	}
+	set, _ := newSet(neutral)
+	tpl, err := set.FromFile(entry)
+	if err != nil {
+		return false
+	}
+	out, xerr := tpl.Execute(ctx)
+	return xerr == nil && c02Leak(out, relax) == ""
+}
+
+func c02Finding(c *C, spec map[string]any) bool {
+	src, _ := spec["source"].(string)
+	out, cerr, xerr := renderString(src, c02Ctx(false))
+	return cerr == nil && xerr == nil && strings.Contains(out, c02Marker)
+}
+
 type c02Stringer struct{ s string }
 
 func (s c02Stringer) String() string { return s.s }
@@ -142,6 +196,17 @@ func c02SweepForms(filter string) []string {
 			"{% filter "+filter+p+" %}lit {{ t1 }}{% endfilter %}",
 			"{% filter "+filter+":t1 %}lit{% endfilter %}",
 			"{% filter "+filter+":ts %}lit {{ t2 }}{% endfilter %}",
+			// parameters that are containers of tainted strings, and what later filters extract from them
+			"{% filter "+filter+":tl %}lit{% endfilter %}",
+			"{% filter default:tl|"+filter+p+" %}{% endfilter %}",
+			"{% filter default:tm|"+filter+p+" %}{% endfilter %}",
+			"{% filter default:tstruct.List|"+filter+p+" %}{% endfilter %}",
+			"{% filter default:tl|join:\", \"|"+filter+p+" %}{% endfilter %}",
+			"{% filter default:tl|first|"+filter+p+" %}{% endfilter %}",
+			"{% filter default:tl|last|"+filter+p+" %}{% endfilter %}",
+			"{% filter default:tl|random|"+filter+p+" %}{% endfilter %}",
+			"{% filter default:tpl|last|"+filter+p+" %}{% endfilter %}{% filter default:tpp|"+filter+p+" %}{% endfilter %}",
+			"{% filter default_if_none:tl|"+filter+":tl %}{% endfilter %}{% filter default:[t1, [t2]]|last|"+filter+p+" %}{% endfilter %}",
 		)
 	}
 	return forms
@@ -175,6 +240,10 @@ func c02Run(c *C) {
 				continue
 			}
 			if leak := c02Leak(out, strings.Contains(src, "{% filter")); leak != "" {
+				if c02Attributed(map[string]string{"/main.tpl": src}, "/main.tpl", c02Ctx(false), true) {
+					c.AddExtra("known_finding_shape_seen", 1)
+					continue
+				}
 				c.Fail("raw-leak", D{"source": src, "output": q(out), "leak": q(leak), "context": "t1, t2, tl, ts carry the marker " + c02Marker})
 				return
 			}
@@ -252,6 +321,10 @@ func c02Run(c *C) {
 			continue // the swapped context holds Go-marked safe values by design; only the tainted run is judged
 		}
 		if leak := c02Leak(out, relax); leak != "" {
+			if c02Attributed(files, "/main.tpl", ctx, relax) {
+				c.AddExtra("known_finding_shape_seen", 1)
+				continue
+			}
 			c.Fail("raw-leak", D{"main": q(main), "files": files, "output": q(truncStr(out, 1500)), "leak": q(leak), "executions": order})
 			return
 		}
@@ -269,6 +342,10 @@ func c02Run(c *C) {
 		if berr == nil {
 			for name, out := range blocks {
 				if leak := c02Leak(out, relax); leak != "" {
+					if c02Attributed(files, "/main.tpl", ctx, relax) {
+						c.AddExtra("known_finding_shape_seen", 1)
+						continue
+					}
 					c.Fail("raw-leak", D{"entry": "ExecuteBlocks", "block": name, "main": q(main), "files": files, "output": q(truncStr(out, 1500)), "leak": q(leak)})
 					return
 				}
@@ -296,7 +373,8 @@ func init() {
 			a, b := c02Plan(tier)
 			return a + b
 		},
-		Run: c02Run,
+		Run:     c02Run,
+		Finding: c02Finding,
 		Rule: "information-flow monitor: every string leaf of the context (plain values, map keys/values, slice items, struct fields, Stringer results, function results, the whole value zoo) carries the marker mk<&'\">x; template text, string literals and filter parameters are generated free of < > & ' \". " +
 			"(a) sweep: every registered filter (from the hook) except the declared opt-outs, in 17 positions (value, parameter, list, Stringer, for/with/set/firstof/cycle arguments, chains, filter tag body and parameter); " +
 			"(b) random opt-out-free programs over the full vocabulary with loader files (include static/lazy, import, extends/Super, macros incl. results combined with strings, filter tag, cycle, firstof, array literals ...), each compiled once and executed with a context in which safe and tainted values trade places and then with the tainted context. " +
